@@ -3,7 +3,9 @@
   C16.R1  a `str | list[str]` value is normalised before anything iterates it (rules/c16_r1.py: flow-sensitive, interprocedural)
   C16.R2  LayerRule.are_named: exactly one subject layer (configuration errors raised <=> subject side and (subject present or list));
           nothing is added before that guard; the side flag of the wrapped Rule follows the layer-rule language (set by layers_that,
-          untouched by the behaviour words and by are_named itself, cleared by the access words)
+          untouched by the behaviour words and by are_named itself, cleared by the access words); when are_named decides on state
+          of LayerRule's own, the public words are explored as transformers of (own state, side flag) and the guard must agree with
+          the side of the wrapped rule in every reachable state
   C16.R3  builder guards dominate the state writes; the duplicate-module check compares the whole normalised argument against the
           materialised identifiers of all stored modules; the 'pending' test agrees with the stored values; architecture guards
   C16.R4  accepted definitions are stored faithfully (whole list, in order, under the single pending layer) and read back unchanged
@@ -837,6 +839,104 @@ def _show_f(f) -> str:
     return gshow(f)[:200]
 
 
+def own_state_sequences(repo: Repo, F: RuleFacts, res: Result, r: Run, enc: Enc, rule: Term, side: Term, S, L, started, raised, subj: list, extra: set, key: str):
+    """are_named decides on state of its own (not only on the side flag of the wrapped rule).  The public words are interpreted as
+    state transformers over (own state, side flag): starting from `__init__(); layers_that()`, every sequence of are_named / behaviour
+    words / access words (up to 5 calls) is explored on the abstract state, and in every reachable state the configuration errors of
+    are_named must be `wrapped rule on the subject side and (subject present or list)`.
+
+    Returns (subject term, required formula, reachable-states formula) when that holds, None when a verdict / undecided was recorded."""
+    from core.guards import atoms_of, evaluate
+
+    from .c16_logic import models
+
+    m = r.fi
+    where_ = f"{m.relpath}:{m.node.lineno}"
+    subject = lambda a: a[:-2] if a.startswith("len(") and a[-2] == "=" else a  # noqa: E731
+    pcs = [e.pc for e in config_raises(r)]
+    own: list[Term] = []
+    for x in subterms(tuple(pcs)):
+        if x[0] == "attr" and _rooted_at_self(x) and x != rule and x != side and x not in own and not any(y[0] in ("bv", "param") for y in subterms(x)):
+            if {subject(a) for a in atoms_of(enc.truth(x))} & extra:
+                own.append(x)
+    explained = {subject(a) for t in own for a in atoms_of(enc.truth(t))}
+    if not own or not extra <= explained:
+        missing = sorted(extra - explained)
+        res.undecide("C16.R2", key, f"the configuration errors of are_named depend on `{(missing or sorted(extra))[0]}`, which is neither the side flag, the subject of the wrapped rule, the kind of the argument nor an attribute of the layer rule (raised iff `{_show_f(raised)}`)", where_)
+        return None
+    V = [side] + own
+    lr = F.lr
+    init = F.sx.run(public_method(repo, lr, "__init__")) if repo.lookup_method(lr, "__init__") is not None else None
+    words = ["are_named"] + declared_in(repo, lr, "BehaviorBaseSpecification") + declared_in(repo, lr, "AccessSpecification")
+    blind = [n for n in ["layers_that"] + words if F.run(n).of("opaque") or F.run(n).notes]
+    if blind:
+        res.undecide("C16.R2", key, f"are_named keeps state of its own (`{show(own[0])}`), but {blind[0]} could not be followed completely", where_)
+        return None
+
+    def final(t: Term, heap: dict) -> Term:
+        if t == SELF or t[0] != "attr":
+            return t
+        base = final(t[1], heap)
+        return heap.get((base, t[2]), heap.get((t[1], t[2]), ("attr", base, t[2])))
+
+    def lit(val: tuple):
+        return f_and([enc.truth(t) if v else f_not(enc.truth(t)) for t, v in zip(V, val) if v is not None])
+
+    def step(run: Run, val: tuple, constraint) -> set:
+        out = set()
+        for pc, _v, heap in run.returns:
+            base = f_and([enc.pc(pc), lit(val), constraint])
+            fins = [enc.truth(final(t, heap)) for t in V]
+            names = set(atoms_of(base))
+            for f in fins:
+                names |= atoms_of(f)
+            for env in models(names):
+                if evaluate(base, env):
+                    out.add(tuple(evaluate(f, env) for f in fins))
+        return out
+
+    from core.guards import TRUE
+
+    start = {tuple(None for _ in V)}
+    if init is not None:
+        start = step(init, tuple(None for _ in V), TRUE) or start
+    states: dict[tuple, tuple] = {}
+    for v0 in start:
+        for v1 in step(F.run("layers_that"), v0, TRUE):
+            states.setdefault(v1, ("layers_that",))
+    if not states:
+        res.undecide("C16.R2", key, "no state after layers_that() could be derived", where_)
+        return None
+    frontier = list(states)
+    for _depth in range(5):
+        nxt = []
+        for val in frontier:
+            for w in words:
+                for v2 in step(F.run(w), val, started):
+                    if v2 not in states:
+                        states[v2] = states[val] + (w,)
+                        nxt.append(v2)
+        frontier = nxt
+        if not frontier:
+            break
+    reach = f_or([lit(v) for v in states])
+    for c in subj:
+        want = f_and([S, f_or([enc.truth(c), L])])
+        bad = [v for v in states if not equivalent(raised, want, f_and([started, lit(v)]))]
+        if not bad:
+            res.add("C16.R2", key, True, f"are_named decides on `{show(own[0])}`; in all {len(states)} states reachable through layers_that / are_named / behaviour words / access words it raises a configuration error exactly when the wrapped rule is on the subject side and a subject is already present or a list is given", where_, kind="decision-table")
+            return (c, want, reach)
+    c = subj[0]
+    want = f_and([S, f_or([enc.truth(c), L])])
+    v = min((v for v in states if not equivalent(raised, want, f_and([started, lit(v)]))), key=lambda x: len(states[x]))
+    seq = "().".join(states[v]) + "()"
+    desc = ", ".join(f"`{show(t)}` is {'truthy' if b else 'falsy'}" for t, b in zip(V, v))
+    missed = satisfiable(f_and([want, f_not(raised)]), f_and([started, lit(v)]))
+    consequence = "a further (or batched) subject layer is accepted and appended to the subjects of the wrapped rule" if missed else "layers of the rule object are rejected as if they were subjects"
+    verdict(res, r, "C16.R2", key, False, f"after {seq} {desc}: are_named decides on its own state, which disagrees with the side of the wrapped rule, so {consequence} (configuration error raised iff `{_show_f(raised)}`)", where_, kind="decision-table")
+    return None
+
+
 def check_are_named(repo: Repo, F: RuleFacts, res: Result, arch: Term, rule: Term, flag: str) -> None:
     r = F.run("are_named")
     m = r.fi
@@ -911,15 +1011,21 @@ def check_are_named(repo: Repo, F: RuleFacts, res: Result, arch: Term, rule: Ter
         vocab = {subject(a) for a in vocab}
         extra = sorted({subject(a) for a in atoms_of(raised)} - vocab)
         if extra and subj:
-            res.undecide("C16.R2", key, f"the configuration errors of are_named depend on `{extra[0]}`, which is neither the side flag, the subject of the wrapped rule nor the kind of the argument (raised iff `{_show_f(raised)}`)", f"{m.relpath}:{m.node.lineno}")
-            return
+            got = own_state_sequences(repo, F, res, r, enc, rule, side, S, L, started, raised, subj, set(extra), key)
+            if got is None:
+                return
+            hit = got
+    if hit is None:
         if not subj:
             detail = f"are_named does not extend the subject of the wrapped rule on the subject side (configuration error raised iff `{_show_f(raised)}`)"
         else:
             detail = f"are_named raises a configuration error iff `{_show_f(raised)}` (given a started rule); required: on the subject side iff a subject is already present (`{show(subj[0])}`) or a list is given, never on the object side"
         verdict(res, r, "C16.R2", key, False, detail, f"{m.relpath}:{m.node.lineno}", kind="decision-table")
         return
-    verdict(res, r, "C16.R2", key, True, "a configuration error is raised exactly when, on the subject side, a subject is already present or a list is given (truth table over started / side / subject present / argument kind)", f"{m.relpath}:{m.node.lineno}", kind="decision-table")
+    if len(hit) == 2:
+        verdict(res, r, "C16.R2", key, True, "a configuration error is raised exactly when, on the subject side, a subject is already present or a list is given (truth table over started / side / subject present / argument kind)", f"{m.relpath}:{m.node.lineno}", kind="decision-table")
+    else:
+        started = f_and([started, hit[2]])  # own-state representation: only the reachable combinations of own state and side flag count
     want = hit[1]
     early = [e for e in effects if satisfiable(f_and([enc.pc(e.pc), want]), started)]
     ok = not early and bool(effects)
